@@ -119,6 +119,14 @@ def oracle(ctx, widened):
 
     def cmp(op, inst, lab_date, lab_epoch, got, ref, vtol_scale=8000.0, extra=None, vel_rtol=0.0, dates=(), pos_atol=0.0, vel_atol=0.0):
         """positions within |v| x 3 µs (UT1/TDB conversions are rounded to the µs) + 1e-6 m"""
+        if callable(got):
+            try:
+                got = got()
+            except Exception as e:  # noqa: BLE001  (the UTC-labelled baseline did not raise)
+                out.count(key=(op, inst, lab_date, lab_epoch), op=op, label=f"{lab_date}/{lab_epoch}")
+                out.fail(f"{op}:label-dependent", f"{op}: raises for date label {lab_date} / epoch label {lab_epoch} but not for the same instant labelled UTC",
+                         {"op": op, "instant": inst, "date_label": lab_date, "epoch_label": lab_epoch, **(extra or {})}, observed=repr(e), expected=[float(x) for x in vec(ref)])
+                return
         g, r = vec(got), vec(ref)
         slack = 3e-6 if ("UT1" in (lab_date, lab_epoch) or "TDB" in (lab_date, lab_epoch)) else 1e-9
         tol = np.array([vtol_scale * slack + 1e-6 + pos_atol] * 3 + [vtol_scale * slack * 1.2e-3 + 1e-9 + vel_rtol * vtol_scale + pos_atol * 1.2e-3 + vel_atol] * 3)[: len(g)]
@@ -148,8 +156,7 @@ def oracle(ctx, widened):
                     for le in (SCALES if big or ld == "UTC" or ld == "TAI" else ["UTC", "TT"]):
                         o = relabel(base_orb, le)
                         o.propagator = get_propagator(pname)()
-                        got = o.propagate(d_utc.change_scale(ld)).copy(form="cartesian", frame="TEME")
-                        cmp(pname, inst, ld, le, got, ref)
+                        cmp(pname, inst, ld, le, lambda: o.propagate(d_utc.change_scale(ld)).copy(form="cartesian", frame="TEME"), ref)
             # ---- native SGP4 (near-Earth TLEs only)
             if ti != 1:
                 s = Sgp4Beta(); s.orbit = orb0
@@ -157,14 +164,14 @@ def oracle(ctx, widened):
                 for ld in SCALES:
                     for le in ("UTC", "TAI", "TT"):
                         s2 = Sgp4Beta(); s2.orbit = relabel(orb0, le)
-                        cmp("Sgp4Beta", inst, ld, le, s2.propagate(d_utc.change_scale(ld)), ref)
+                        cmp("Sgp4Beta", inst, ld, le, lambda: s2.propagate(d_utc.change_scale(ld)), ref)
             # ---- frame conversion of a state dated with a label
             sv = orb0.propagate(d_utc).copy(form="cartesian", frame="TEME")
             for target in ("ITRF", "EME2000", "GCRF", "PEF"):
                 ref = sv.copy(frame=target)
                 for ld in SCALES:
                     rl = relabel(sv, ld)
-                    got = rl.copy(frame=target)
+                    got = lambda: rl.copy(frame=target)  # noqa: E731
                     # Earth-fixed targets: the sidereal angle is computed from a Julian date held in ONE double (resolution 4e-5 s,
                     # i.e. about 2 cm at LEO); the rounding differs with the path the date took — numerical noise, not a label effect
                     cmp(f"frame-TEME-{target}", inst, ld, "-", got, ref, dates=[rl.date], pos_atol=0.05 if target in ("ITRF", "PEF", "TIRF") else (2e-5 if target == "GCRF" else 0.0),
@@ -225,7 +232,7 @@ def numerical(out, rng, cmp, big):
         for ld in SCALES:
             for le in (SCALES if big else ["UTC", "TT", "UT1"]):
                 o = relabel(orb0, le); o.propagator = KeplerNum(timedelta(seconds=60), get_body("Earth"))
-                cmp("KeplerNum", f"num+{dt.total_seconds()}", ld, le, o.propagate(d_utc.change_scale(ld)), ref)
+                cmp("KeplerNum", f"num+{dt.total_seconds()}", ld, le, lambda: o.propagate(d_utc.change_scale(ld)), ref)
 
 
 def clohessy(out, rng, cmp, big):
@@ -247,8 +254,8 @@ def clohessy(out, rng, cmp, big):
         ref = mk("UTC", "UTC").propagate(d0 + timedelta(seconds=t))
         for ld in SCALES:
             for le in (SCALES if big else ["UTC", "TAI", "TDB"]):
-                got = mk(le, rng.choice(SCALES)).propagate((d0 + timedelta(seconds=t)).change_scale(ld))
-                cmp("CW", f"cw+{t}", ld, le, got, ref, vtol_scale=10.0)
+                lm = rng.choice(SCALES)
+                cmp("CW", f"cw+{t}", ld, le, lambda: mk(le, lm).propagate((d0 + timedelta(seconds=t)).change_scale(ld)), ref, vtol_scale=10.0)
 
 
 def ephem_and_events(out, rng, cmp, big):
@@ -271,7 +278,13 @@ def ephem_and_events(out, rng, cmp, big):
                     # the first/last table date converted through UT1/TDB is the same instant only to within 1 µs
                     # (resolution of the conversion, C03): it may fall just outside the table — not a label effect
                     continue
-                got = eph.interpolate(qd.change_scale(ld))
+                try:
+                    got = eph.interpolate(qd.change_scale(ld))
+                except Exception as e:  # noqa: BLE001  (the UTC-labelled baseline did not raise)
+                    out.count(key=("Ephem.interpolate", qi, ld, le), op="Ephem.interpolate", label=f"{ld}/{le}")
+                    out.fail("Ephem.interpolate:label-dependent", f"Ephem.interpolate raises for the instant labelled {ld} (ephemeris in {le}) but not for the same instant in UTC",
+                             {"op": "Ephem.interpolate", "offset_s": (qd - start).total_seconds(), "date_label": ld, "epoch_label": le}, observed=repr(e), expected=[float(x) for x in rp])
+                    continue
                 cmp("Ephem.interpolate", f"eph+{(qd - start).total_seconds()}", ld, le, got, rp)
     # events: node and apside crossings found with start/stop given in another scale
     def events(ld, le):
@@ -285,7 +298,10 @@ def ephem_and_events(out, rng, cmp, big):
     ref = events("UTC", "UTC")
     for ld in SCALES:
         for le in (["UTC", "TT"] if not big else SCALES):
-            got = events(ld, le)
+            try:
+                got = events(ld, le)
+            except Exception as e:  # noqa: BLE001
+                got = [("exception " + repr(e), start)]
             out.count(key=("events", ld, le), nontrivial=(ld, le) != ("UTC", "UTC"), op="events", label=f"{ld}/{le}")
             ok = len(got) == len(ref) and all(a[0] == b[0] and abs((a[1] - b[1]).total_seconds()) <= 2e-5 for a, b in zip(got, ref))
             if not ok:
@@ -335,7 +351,7 @@ def bodies(out, rng, cmp, big):
             d = Date(2005 + 3 * k, 1 + 2 * k, 9, 3, 4, 5)
             ref = body.propagate(d)
             for ld in SCALES:
-                got = body.propagate(d.change_scale(ld))
+                got = lambda: body.propagate(d.change_scale(ld))  # noqa: E731
                 # the velocity is a central difference over ±1 day *of the label scale*: a day of UT1 differs from a day of
                 # TAI by the daily change of UT1-UTC (~1 ms), i.e. 2e-8 relative — inherent to Date arithmetic, not a label effect
                 cmp(f"body-{name}", str(d), ld, "-", got, ref, vtol_scale=3.0e4 if name == "Sun" else 1100.0, vel_rtol=5e-8)
